@@ -33,6 +33,8 @@ type dsOp struct {
 	key    *Term
 }
 
+var isCurrentHeight func(t *Term) bool
+
 func runC14(c *Check) {
 	p := c.Mod(ModRoot)
 	c.Doc("C14-R1", "EO+VP: atomic block save.")
@@ -301,6 +303,48 @@ func runC14(c *Check) {
 		c.Unk("C14-R2", "SetMetadata-call-sites", "", "", fmt.Sprintf("anchor lost: %d call sites (5 confirmed by hand)", nMeta))
 	}
 
+	// functions of the store that (transitively) read the height record: a value they return is
+	// "the current height of the store"
+	heightReaders := map[*ssa.Function]bool{}
+	{
+		direct := map[*ssa.Function]bool{}
+		for _, o := range ops {
+			if o.method == "Get" && o.ctor == "getHeightKey" {
+				direct[o.fn] = true
+			}
+		}
+		var reads func(fn *ssa.Function, d int, seen map[*ssa.Function]bool) bool
+		reads = func(fn *ssa.Function, d int, seen map[*ssa.Function]bool) bool {
+			if direct[fn] {
+				return true
+			}
+			if seen[fn] || d > 4 {
+				return false
+			}
+			seen[fn] = true
+			for _, cal := range staticCalleesOf(p, fn) {
+				if pk := fnPkg(cal); pk != nil && pk.Pkg.Path() == storePkg && reads(cal, d+1, seen) {
+					return true
+				}
+			}
+			return false
+		}
+		for _, fn := range p.Funcs {
+			if pk := fnPkg(fn); pk != nil && pk.Pkg.Path() == storePkg && fn.Parent() == nil && strings.HasPrefix(resultTypes(fn), "uint64") {
+				if reads(fn, 0, map[*ssa.Function]bool{}) {
+					heightReaders[fn] = true
+				}
+			}
+		}
+	}
+	isCurrentHeight = func(t *Term) bool {
+		t = t.unconv()
+		if t.Op == "extract" {
+			t = t.Args[0]
+		}
+		cv, ok := t.V.(*ssa.Call)
+		return ok && t.Op == "call" && heightReaders[cv.Common().StaticCallee()]
+	}
 	// ---- R3
 	nHeightPut := 0
 	for _, o := range ops {
@@ -318,8 +362,7 @@ func runC14(c *Check) {
 		guard := false
 		for _, f := range facts {
 			t := f.Cond
-			cur := "(*pkg/store.DefaultStore).Height(" + o.fn.Params[0].Name() + ", " + o.fn.Params[1].Name() + ")#0"
-			if t.Op == "bin" && ((t.Name == "<=" && !f.Pol && t.Args[0].String() == h && t.Args[1].String() == cur) || (t.Name == ">" && f.Pol && t.Args[0].String() == h && t.Args[1].String() == cur)) {
+			if t.Op == "bin" && len(t.Args) == 2 && t.Args[0].String() == h && isCurrentHeight(t.Args[1]) && ((t.Name == "<=" && !f.Pol) || (t.Name == ">" && f.Pol)) {
 				guard = true
 			}
 		}
@@ -592,6 +635,42 @@ func safeMetaKey(p *Prog, key *Term) (bool, string) {
 			return false, fmt.Sprintf("constant key %q", s)
 		}
 		return true, fmt.Sprintf("constant key %q", s)
+	case k.Op == "bin" && k.Name == "+":
+		// a concatenation of constant pieces and formatted integers, starting with a safe constant
+		var parts []*Term
+		var flat func(t *Term)
+		flat = func(t *Term) {
+			t = t.unconv()
+			if t.Op == "bin" && t.Name == "+" {
+				flat(t.Args[0])
+				flat(t.Args[1])
+				return
+			}
+			parts = append(parts, t)
+		}
+		flat(k)
+		shape := ""
+		for i, pt := range parts {
+			switch {
+			case pt.Op == "const":
+				var s string
+				if _, err := fmt.Sscanf(pt.Name, "%q", &s); err != nil {
+					return false, "concatenation with a non-string constant"
+				}
+				if strings.Contains(s, "..") || (i == 0 && bad(s)) {
+					return false, fmt.Sprintf("concatenation with the piece %q", s)
+				}
+				shape += s
+			case pt.IsCall("strconv.FormatUint") || pt.IsCall("strconv.FormatInt") || pt.IsCall("strconv.Itoa"):
+				shape += "<int>"
+			default:
+				return false, "concatenation with a piece of unknown origin: " + trunc(pt.String(), 40)
+			}
+		}
+		if len(parts) == 0 || parts[0].unconv().Op != "const" {
+			return false, "concatenation that does not start with a constant prefix"
+		}
+		return true, "constant prefix and formatted integers: " + shape
 	case k.IsCall("fmt.Sprintf"):
 		f := k.Args[0].unconv()
 		var format string
@@ -730,7 +809,10 @@ func ruleHeightNotAheadOfDisk(c *Check, p *Prog) {
 			for _, in := range b.Instrs {
 				if fa, ok := in.(*ssa.FieldAddr); ok {
 					if st := derefStruct(fa.X.Type()); st != nil && strings.HasSuffix(fa.X.Type().String(), storePkg+".DefaultStore") && !isDB(st.Field(fa.Field).Type()) {
-						read[fa.Field] = st.Field(fa.Field).Name()
+						// only state that can carry a height (flags and locks cannot run ahead of the disk)
+						if ts := st.Field(fa.Field).Type().String(); strings.Contains(ts, "int") || strings.Contains(ts, "Int") {
+							read[fa.Field] = st.Field(fa.Field).Name()
+						}
 					}
 				}
 				if call, ok := in.(*ssa.Call); ok && d < 2 {
@@ -797,7 +879,13 @@ func ruleHeightNotAheadOfDisk(c *Check, p *Prog) {
 						}
 					}
 				}
+				invalidates := false
+				if k, ok := val.(*ssa.Const); ok && k.Value == nil {
+					invalidates = true // forgetting the remembered value: the next reader asks the database
+				}
 				switch {
+				case invalidates:
+					c.OK(rule, inst+" (invalidation)", fnName(fn), p.InstrPos(in), "the remembered value is dropped", true)
 				case fromDB:
 					c.OK(rule, inst, fnName(fn), p.InstrPos(in), "the value written was read from the database", true)
 				case afterPut:
@@ -883,7 +971,7 @@ func ruleWriteMethodsWrite(c *Check, p *Prog) {
 			noGrow := false
 			for _, f := range g.NecessaryEdges(func(y *Node) bool { return y == xx }) {
 				t, pol := normFact(f.Cond, f.Pol)
-				if t.Op == "bin" && len(t.Args) == 2 && t.Args[0].Op == "param" && strings.Contains(t.Args[1].String(), "DefaultStore).Height(") &&
+				if t.Op == "bin" && len(t.Args) == 2 && t.Args[0].Op == "param" && isCurrentHeight(t.Args[1]) &&
 					((t.Name == "<=" && pol) || (t.Name == ">" && !pol)) {
 					noGrow = true
 				}
